@@ -215,6 +215,44 @@ pub fn gen_stack_grammar(r: &mut Rng, extras: bool) -> Vec<GRule> {
     rules
 }
 
+/// the skip-until idiom `(!(a | b | ..) ~ ANY)*` the optimizer turns into one scan when the rule is atomic: stop sets of one to four
+/// literals that share first bytes and prefixes, in every order, with rule references (inlined by the optimizer) in any place of
+/// the choice; the same expression in non-atomic rules (left alone); the scan followed by one of the terminators or by anything
+pub fn gen_skip_grammar(r: &mut Rng) -> Vec<GRule> {
+    use GE::*;
+    let pool = ["x", "y", "xy", "yx", "xx", "yy", "xyy", "xyx", "yxy"];
+    let lit = |r: &mut Rng| pool[r.weighted(&[4, 4, 4, 3, 2, 2, 2, 2, 1])].to_string();
+    let nalt = r.weighted(&[0, 2, 5, 3, 2]);
+    let mut helpers: Vec<GRule> = vec![];
+    let mut alts: Vec<GE> = (0..nalt).map(|_| Str(lit(r))).collect();
+    // rule references inside the stop set
+    let nref = r.weighted(&[5, 4, 1]);
+    for k in 0..nref {
+        let name = format!("r{}", 2 + k);
+        let body = match r.below(4) { 0 => Str(lit(r)), 1 => Cho(Box::new(Str(lit(r))), Box::new(Str(lit(r)))),
+            2 => if k + 1 < nref { Cho(Box::new(Str(lit(r))), Box::new(Id(format!("r{}", 3 + k)))) } else { Str(lit(r)) },
+            _ => Cho(Box::new(Str(lit(r))), Box::new(Cho(Box::new(Str(lit(r))), Box::new(Str(lit(r)))))) };
+        helpers.push(GRule { name: name.clone(), ty: [Ty::Silent, Ty::Silent, Ty::Normal, Ty::Atomic][r.below(4) as usize], e: body });
+        let at = r.below(alts.len() as u64 + 1) as usize;
+        let at = if r.chance(1, 2) { alts.len() } else { at };
+        alts.insert(at, Id(name));
+    }
+    let mut stop = alts.pop().unwrap();
+    while let Some(a) = alts.pop() { stop = Cho(Box::new(a), Box::new(stop)); }
+    let scan = Rep(Box::new(Seq(Box::new(Neg(Box::new(stop))), Box::new(Id("ANY".into())))));
+    let tail = match r.below(5) { 0 => Str(lit(r)), 1 => Seq(Box::new(Str(lit(r))), Box::new(Rep(Box::new(Id("ANY".into()))))), 2 => Id("EOI".into()),
+        3 => Opt(Box::new(Id("ANY".into()))), _ => Cho(Box::new(Str(lit(r))), Box::new(Str(lit(r)))) };
+    let e1 = match r.below(4) { 0 => scan.clone(), 1 => Seq(Box::new(Str(lit(r))), Box::new(scan.clone())), _ => Seq(Box::new(scan.clone()), Box::new(tail.clone())) };
+    let ty1 = [Ty::Atomic, Ty::Atomic, Ty::Atomic, Ty::Atomic, Ty::Compound, Ty::Normal, Ty::Silent][r.below(7) as usize];
+    let e0 = match r.below(4) { 0 => Id("r1".into()), 1 => Seq(Box::new(Id("r1".into())), Box::new(tail)), 2 => Rep(Box::new(Seq(Box::new(Id("r1".into())), Box::new(Id("ANY".into()))))),
+        _ => Seq(Box::new(Opt(Box::new(Str(lit(r))))), Box::new(Id("r1".into()))) };
+    let mut rules = vec![GRule { name: "r0".into(), ty: [Ty::Normal, Ty::Atomic, Ty::Compound, Ty::Silent, Ty::NonAtomic][r.below(5) as usize], e: e0 },
+                         GRule { name: "r1".into(), ty: ty1, e: e1 }];
+    rules.extend(helpers);
+    if r.chance(1, 5) { rules.push(GRule { name: "WHITESPACE".into(), ty: Ty::Silent, e: Str(" ".into()) }); }
+    rules
+}
+
 /// all strings of length <= n over the alphabet
 pub fn all_strings(alpha: &[&str], n: usize) -> Vec<String> {
     let mut out = vec![String::new()];
